@@ -219,6 +219,11 @@ for _pid, _txt in {
     "C19": "Partial claim: byte counts are run-time; decided is that the code has the bounded-window shape (reachability, guarded reads, request-dependent bounds, cache test).",
 }.items():
     LEVEL_TEXT[_pid] = _txt
+LEVEL_TEXT["C06"] = ("Partial, narrow claim (structural necessary conditions only): prefix-ness for every cut offset is run-time arithmetic and is NOT decided. "
+                     "Decided is the shape of the truncation machinery every such read goes through: where a segment is taken to end and when it is flagged "
+                     "incomplete (all scenarios of marker x known size x claimed end), that a torn lead-in or torn metadata ends the scan instead of being parsed, "
+                     "that a short final chunk is distributed front to back and stops at the first incomplete channel/buffer, and that lengths and windows go "
+                     "through the one counting function that knows the short chunk.")
 LEVEL_TEXT["C07"] = "Partial claim: round-trip equality is not a static target; decided are the tables, thresholds, layouts and exact-integer paths writer and reader must agree on."
 LEVEL_TEXT["C12"] = "Partial claim: the exactness clause is decided by interval analysis of the encoder (float64 cannot hold integers beyond 2**53); sibling and constant checks; numerical clauses are not decided."
 LEVEL_TEXT["C16"] = "Partial claim: the taint-style discipline around the path grammar is decided (who produces paths, who parses them, alphabet agreement, key spaces); inverse-ness of the scanner for all strings is not."
@@ -240,6 +245,7 @@ TECHNIQUE = {
     "C14": "static analysis: abstract interpretation over a dtype lattice (NumPy as promotion oracle), table extraction and comparison, dataflow of dtype sources",
     "C02": "static analysis: alias/freshness dataflow, typestate abstract interpretation of the object list and has_data, control-dependence of raises, reachability of inheritance sites under the new-object-list flag, single-writer memo fields",
     "C13": "static analysis: interprocedural alias and in-place effect analysis; dispatch and role-flow rules",
+    "C06": "static analysis: scenario evaluation of symbolic normal forms (segment end / incomplete flag / EOFError guards under marker x size x ordering oracles), exception-handler structure of the segment loop, CFG rule on the truncated-chunk budget loops, data-dependence rules on the counting function",
     "C05": "static analysis: typestate (cursor P/U) abstract interpretation with generator continuations, single-writer and cache-pairing rules",
     "C15": "static analysis: interprocedural endianness dataflow over the call graph, default-argument trap, layout sibling comparison",
     "C20": "static analysis: CFG with exceptional edges, must-pass-through / dominance queries, path-sensitive resource interpreter over input scenarios (package context managers interpreted), ownership (who-may-open/close) rules",
